@@ -2,7 +2,7 @@ import GqlProofs.ValSpec.Spreads
 import GqlProofs.ValSpec.LeafFrag
 import GqlProofs.ValSpec.DefDirs
 import GqlProofs.ValSpec.LinkWitness
-import GqlProofs.ValSpec.Present
+import GqlProofs.ValSpec.CustomScalar
 import GqlProofs.Props.C08
 import GqlModel.Validate.Spec.Links
 /-
@@ -384,6 +384,31 @@ theorem C09_links_correct (s : Schema) (d : QueryDoc) (evs : List Event) (hw : w
   ⟨expectedLinks_eq s d, docDemands_met s d evs hw hwp hk, docDemands_var_met s d evs hw hwp hpos,
    docDemands_present s d hs hString (linkRules_of_valid s d hvalid hwp hk hKnownRootType hKnownTypeNames)⟩
 
+/-- (a)/(e), "contents of custom-scalar literals excepted": in a document that passes validation
+    and satisfies ValuesOfCorrectType (hypothesis named after the rule, which has no equivalence
+    theorem yet) the ONLY value nodes of which the specification demands no expected type and
+    definition are those nested in a list / object literal written where a type that takes any
+    literal is expected (`Spec.structuredAtNamed`: a custom scalar) — every other value node of
+    every argument and default value is typed, with present links (`C09_links_correct`). -/
+theorem C09_untyped_values_only_in_custom_scalars (s : Schema) (d : QueryDoc)
+    (hvalid : validate defaultRules s d = .ok []) (hs : Gql.Spec.Closed s)
+    (hString : (s.type? (str "String")).isSome) (hwp : Spec.wellParented s d = true)
+    (hk : ∀ op ∈ d.ops, op.op ∈ parserOpKinds) (hKnownRootType : Spec.knownRootType s d = true)
+    (hKnownTypeNames : Spec.variableTypesExist s d = true ∧ Spec.fragmentSpreadTypeExistence s d = true)
+    (hValuesOfCorrectType : Spec.valuesOfCorrectType s d = true) :
+    ∀ o, SpecValOcc s d o → o.typed = false →
+      ∃ r, SpecValOcc s d r ∧ r.typed = true ∧ (∃ dd, r.dfn = some dd ∧ Spec.structuredAtNamed dd = true) ∧
+        o ∈ valOccs s r.typed r.exp r.dfn r.v := by
+  have hr := linkRules_of_valid s d hvalid hwp hk hKnownRootType hKnownTypeNames
+  have hpar := parents_present s d hs.fieldTypes hString hr.knownRootType hr.fieldSelections hr.typeConditions
+  have hsites := argSites_present s d hs hpar hr.fieldSelections hr.directives hr.argumentNames
+  intro o ho hot
+  obtain ⟨r, hr', ⟨hrt, hcust⟩, hin⟩ := untyped_only_in_custom s d hsites hValuesOfCorrectType o ho hot
+  have hpres := (specValOcc_present s d hs.fieldTypes hsites hr.variableTypes r hr' hrt).2
+  cases hdd : r.dfn with
+  | none => rw [hdd] at hpres; cases hpres
+  | some dd => exact ⟨r, hr', hrt, ⟨dd, hdd, hcust dd hdd⟩, hin⟩
+
 /-! ## Non-vacuity: the hypotheses are satisfiable (kernel-checked documents) -/
 
 section NonVacuity
@@ -398,9 +423,10 @@ example :
     (∀ op ∈ docV.ops, op.op ∈ parserOpKinds) ∧ FragPosDistinct docV ∧ Spec.knownRootType schemaV docV = true ∧
     (Spec.variableTypesExist schemaV docV = true ∧ Spec.fragmentSpreadTypeExistence schemaV docV = true) ∧
     (∀ op ∈ docV.ops, ∀ op' ∈ docV.ops, ∀ raw, Spec.varDefByName op raw = Spec.varDefByName op' raw) ∧
-    ((walkDoc schemaV.view docV).map varStartsDistinctB = some true) := by
+    ((walkDoc schemaV.view docV).map varStartsDistinctB = some true) ∧
+    Spec.valuesOfCorrectType schemaV docV = true := by
   refine ⟨by decide +kernel, ?_, by decide +kernel, by decide +kernel, by decide +kernel, ?_, by decide +kernel,
-    ⟨by decide +kernel, by decide +kernel⟩, ?_, by decide +kernel⟩
+    ⟨by decide +kernel, by decide +kernel⟩, ?_, by decide +kernel, by decide +kernel⟩
   · refine ⟨by decide +kernel, by decide +kernel, by decide +kernel, by decide +kernel, by decide +kernel,
       by decide +kernel, by decide +kernel, ⟨fun n h => ?_, fun n h => ?_, fun n h => ?_⟩, by decide +kernel,
       by decide +kernel⟩
@@ -493,3 +519,4 @@ end NonVacuity
 #print axioms C09_inline_fragment_link_is_parent
 #print axioms C09_inline_fragment_link_counterexample
 #print axioms C09_links_correct
+#print axioms C09_untyped_values_only_in_custom_scalars
